@@ -327,6 +327,16 @@ def gen(rng, tier):
             S("swh:1:dir:" + hx40(rng) + ";" + k + "=" + v)
     for b in range(256):
         S("swh:1:cnt:%s;path=%%%02X;origin=%%%02x" % (hx40(rng), b, b))
+    # origin / path values built from literals harvested from the code under test, plain and percent-escaped (a validator
+    # keyed on a literal - e.g. an origin starting with "swh:" - is exercised even when the literal is new)
+    from .gitobj_common import source_tokens
+    toks = [t for t in source_tokens("str") if t and all(33 <= ord(ch) < 127 and ch != ";" for ch in t)]
+    for t in (toks if tier == "thorough" else rng.sample(toks, min(len(toks), 120))):
+        esc = t.replace("%", "%25")
+        base0 = "swh:1:rev:" + hx40(rng)
+        S(base0 + ";origin=" + esc)
+        S(base0 + ";origin=" + esc + "example.org/x;path=/" + esc)
+        S(base0 + ";origin=" + "".join("%%%02X" % ord(ch) if ch in ":/" else ch for ch in esc) + "x")
     # structural malformations
     for s in structural(rng):
         S(s)
